@@ -1,2 +1,207 @@
-(* placeholder, replaced below *)
-From Coq Require Import Reals.
+(* C10 - Diffusivities are physically valid and match the free-energy curvature.
+   This file contains ONLY the property theorems; each is closed by [exact] of a lemma of Proofs.v and
+   followed by Print Assumptions.  All statements are about the real-number instance [Rops] of the model
+   in Model.v (kawin/thermo/Mobility.py, FreeEnergyHessian.py).  numpy's matrix inverse is the oracle
+   [inv]; [inv_ok] says that whenever it returns a matrix, that matrix is a right inverse.
+   What is NOT here (sampled by the harness only): that dMudX equals the numerical derivative of pycalphad's
+   equilibrium chemical potentials and is positive definite on the shipped databases. *)
+From Coq Require Import Reals List Arith.
+Require Import Kawin.Common.Ops Kawin.Common.Vec Kawin.C10.Model Kawin.C10.Proofs Kawin.C10.Reorder.
+Import ListNotations.
+Open Scope R_scope.
+
+(* ---- volume-fixed frame ------------------------------------------------------------------------- *)
+(* every column of the mobility matrix sums to zero over the substitutional elements ... *)
+Theorem C10_vff_zero_sum vp X inter M yva b :
+  usum Rops X inter <> 0 -> (b < length X)%nat ->
+  bigsum Rops (length X) (fun a => if isint inter a then 0
+                                   else mget Rops (mobility_matrix Rops vp X inter M yva) a b) = 0.
+Proof. exact (column_sum_zero vp X inter M yva b). Qed.
+Print Assumptions C10_vff_zero_sum.
+
+(* ... hence the substitutional fluxes J_a = - sum_b M_ab grad(mu_b) sum to zero for EVERY gradient *)
+Theorem C10_vff_flux_zero_sum vp X inter M yva (g : nat -> R) :
+  usum Rops X inter <> 0 ->
+  bigsum Rops (length X) (fun a => if isint inter a then 0
+     else - bigsum Rops (length X) (fun b => mget Rops (mobility_matrix Rops vp X inter M yva) a b * g b)) = 0.
+Proof. exact (flux_sum_zero vp X inter M yva g). Qed.
+Print Assumptions C10_vff_flux_zero_sum.
+
+(* ... and so do the columns of the chemical diffusivity M * P, whatever the curvature matrix P is *)
+Theorem C10_chemdiff_zero_sum vp X inter M yva P j :
+  usum Rops X inter <> 0 -> (j < length X)%nat ->
+  bigsum Rops (length X) (fun a => if isint inter a then 0
+                                   else mget Rops (chemical_diffusivity Rops vp X inter M yva P) a j) = 0.
+Proof. exact (chemdiff_column_sum_zero vp X inter M yva P j). Qed.
+Print Assumptions C10_chemdiff_zero_sum.
+
+(* interstitial elements: a diagonal entry only *)
+Theorem C10_interstitial_rows_diagonal vp X inter M yva a b :
+  (a < length X)%nat -> (b < length X)%nat -> isint inter a = true -> a <> b ->
+  mget Rops (mobility_matrix Rops vp X inter M yva) a b = 0.
+Proof. exact (inter_row vp X inter M yva a b). Qed.
+Print Assumptions C10_interstitial_rows_diagonal.
+
+(* ---- tracer diffusivity ---------------------------------------------------------------------------- *)
+Theorem C10_tracer_is_RTM Tk corr raw a : (a < length corr)%nat -> (a < length raw)%nat ->
+  vget Rops (tracer Rops Tk corr raw) a = 8314 / 1000 * Tk * (vget Rops corr a * vget Rops raw a).
+Proof. exact (tracer_entry Tk corr raw a). Qed.
+Print Assumptions C10_tracer_is_RTM.
+
+Theorem C10_tracer_positive Tk corr raw a : (a < length corr)%nat -> (a < length raw)%nat ->
+  0 < Tk -> 0 < vget Rops corr a * vget Rops raw a -> 0 < vget Rops (tracer Rops Tk corr raw) a.
+Proof. exact (tracer_pos Tk corr raw a). Qed.
+Print Assumptions C10_tracer_positive.
+
+(* databases with diffusivity parameters: the interdiffusivity is the diagonal matrix of the solutes' tracer
+   diffusivities (its eigenvalues are those entries), positive when they are *)
+Theorem C10_diff_interdiffusivity_diagonal n r corr raw a b : (a < n - 1)%nat -> (b < n - 1)%nat ->
+  mget Rops (interdiff_from_diff Rops n r corr raw) a b =
+    if Nat.eqb a b then vget Rops (tracer_from_diff Rops corr raw) (skip r a) else 0.
+Proof. exact (interdiff_from_diff_entry n r corr raw a b). Qed.
+Print Assumptions C10_diff_interdiffusivity_diagonal.
+
+Theorem C10_diff_interdiffusivity_positive n r corr raw a : (r < n)%nat -> (a < n - 1)%nat ->
+  length corr = n -> length raw = n ->
+  (forall e, (e < n)%nat -> 0 < vget Rops corr e * vget Rops raw e) ->
+  0 < mget Rops (interdiff_from_diff Rops n r corr raw) a a.
+Proof. exact (interdiff_from_diff_pos n r corr raw a). Qed.
+Print Assumptions C10_diff_interdiffusivity_positive.
+
+(* ---- the bordered matrix and the chemical-potential derivatives -------------------------------------- *)
+(* symmetric by construction, given that the phase's own curvature block is *)
+Theorem C10_hessian_symmetric d i j :
+  d2g_sym d -> (i < hsize Rops d)%nat -> (j < hsize Rops d)%nat ->
+  mget Rops (hessian Rops d) i j = mget Rops (hessian Rops d) j i.
+Proof. exact (hessian_sym d i j). Qed.
+Print Assumptions C10_hessian_symmetric.
+
+Theorem C10_dMudX_symmetric inv d r c e :
+  inv_ok inv (hsize Rops d) (hessian Rops d) -> d2g_sym d ->
+  (r < nel d)%nat -> (c < nel d - 1)%nat -> (e < nel d - 1)%nat ->
+  mget Rops (dMudX Rops inv d r) c e = mget Rops (dMudX Rops inv d r) e c.
+Proof. exact (fun H => dMudX_symmetric inv d H r c e). Qed.
+Print Assumptions C10_dMudX_symmetric.
+
+Theorem C10_partialdMudX_symmetric inv d A B :
+  inv_ok inv (hsize Rops d) (hessian Rops d) -> d2g_sym d -> (A < nel d)%nat -> (B < nel d)%nat ->
+  mget Rops (partialdMudX Rops inv d) A B = mget Rops (partialdMudX Rops inv d) B A.
+Proof. exact (fun H => partialdMudX_symmetric inv d H A B). Qed.
+Print Assumptions C10_partialdMudX_symmetric.
+
+(* dMudX is the partial derivative matrix taken along the exchange with the reference element *)
+Theorem C10_dMudX_from_partial inv d r c e :
+  (r < nel d)%nat -> (c < nel d - 1)%nat -> (e < nel d - 1)%nat ->
+  mget Rops (dMudX Rops inv d r) c e =
+    (mget Rops (partialdMudX Rops inv d) (skip r c) (skip r e) - mget Rops (partialdMudX Rops inv d) (skip r c) r)
+  - (mget Rops (partialdMudX Rops inv d) r (skip r e) - mget Rops (partialdMudX Rops inv d) r r).
+Proof. exact (dMudX_from_partial inv d r c e). Qed.
+Print Assumptions C10_dMudX_from_partial.
+
+(* Gibbs-Duhem holds for the matrix the code computes, at a stationary composition set *)
+Theorem C10_gibbs_duhem inv d lam B :
+  stationary d lam -> inv_ok inv (hsize Rops d) (hessian Rops d) -> (B < nel d)%nat ->
+  bigsum Rops (nel d) (fun A => vget Rops (moleA d) A * mget Rops (partialdMudX Rops inv d) A B) = 0.
+Proof. exact (gibbs_duhem_partial inv d lam B). Qed.
+Print Assumptions C10_gibbs_duhem.
+
+(* ---- binary: Darken ---------------------------------------------------------------------------------- *)
+Theorem C10_binary_darken vp x0 x1 c0 c1 w0 w1 yva (P : list (list R)) r Tk :
+  (r < 2)%nat -> x0 + x1 = 1 -> x0 <> 0 -> x1 <> 0 -> Tk <> 0 ->
+  x0 * (mget Rops P 0 (1 - r) - mget Rops P 0 r) + x1 * (mget Rops P 1 (1 - r) - mget Rops P 1 r) = 0 ->
+  mget Rops (interdiffusivity Rops vp r [x0; x1] [false; false] (computedMob Rops [c0; c1] [w0; w1]) yva P) 0 0 =
+    (vget Rops [x0; x1] r * vget Rops (tracer Rops Tk [c0; c1] [w0; w1]) (1 - r)
+     + vget Rops [x0; x1] (1 - r) * vget Rops (tracer Rops Tk [c0; c1] [w0; w1]) r)
+    * (vget Rops [x0; x1] (1 - r) / (Rgas Rops * Tk) * (mget Rops P (1 - r) (1 - r) - mget Rops P (1 - r) r)).
+Proof. exact (binary_darken vp x0 x1 c0 c1 w0 w1 yva P r Tk). Qed.
+Print Assumptions C10_binary_darken.
+
+(* the same for the matrix the code builds from the composition set: Gibbs-Duhem is then derived *)
+Theorem C10_binary_darken_cs inv d lam vp x0 x1 c0 c1 w0 w1 yva r Tk s :
+  nel d = 2%nat -> stationary d lam -> inv_ok inv (hsize Rops d) (hessian Rops d) ->
+  s <> 0 -> vget Rops (moleA d) 0 = s * x0 -> vget Rops (moleA d) 1 = s * x1 ->
+  (r < 2)%nat -> x0 + x1 = 1 -> x0 <> 0 -> x1 <> 0 -> Tk <> 0 ->
+  let P := partialdMudX Rops inv d in
+  mget Rops (interdiffusivity_cs Rops inv vp r [x0; x1] [false; false] (computedMob Rops [c0; c1] [w0; w1]) yva d) 0 0 =
+    (vget Rops [x0; x1] r * vget Rops (tracer Rops Tk [c0; c1] [w0; w1]) (1 - r)
+     + vget Rops [x0; x1] (1 - r) * vget Rops (tracer Rops Tk [c0; c1] [w0; w1]) r)
+    * (vget Rops [x0; x1] (1 - r) / (Rgas Rops * Tk) * (mget Rops P (1 - r) (1 - r) - mget Rops P (1 - r) r)).
+Proof. exact (binary_darken_cs inv d lam vp x0 x1 c0 c1 w0 w1 yva r Tk s). Qed.
+Print Assumptions C10_binary_darken_cs.
+
+Theorem C10_binary_positive vp x0 x1 c0 c1 w0 w1 yva (P : list (list R)) r Tk :
+  (r < 2)%nat -> x0 + x1 = 1 -> 0 < x0 -> 0 < x1 -> 0 < Tk -> 0 < c0 * w0 -> 0 < c1 * w1 ->
+  x0 * (mget Rops P 0 (1 - r) - mget Rops P 0 r) + x1 * (mget Rops P 1 (1 - r) - mget Rops P 1 r) = 0 ->
+  0 < mget Rops P (1 - r) (1 - r) - mget Rops P (1 - r) r ->
+  0 < mget Rops (interdiffusivity Rops vp r [x0; x1] [false; false] (computedMob Rops [c0; c1] [w0; w1]) yva P) 0 0.
+Proof. exact (binary_positive vp x0 x1 c0 c1 w0 w1 yva P r Tk). Qed.
+Print Assumptions C10_binary_positive.
+
+(* ---- ternary ------------------------------------------------------------------------------------------- *)
+(* interdiffusivity = (volume-fixed Onsager matrix) * (curvature matrix) *)
+Theorem C10_ternary_LH vp x0 x1 x2 m0 m1 m2 yva (P : list (list R)) r c e :
+  (r < 3)%nat -> (c < 2)%nat -> (e < 2)%nat -> x0 + x1 + x2 = 1 ->
+  let X := [x0; x1; x2] in let M := [m0; m1; m2] in
+  (forall B, (B < 3)%nat -> gd3 X P B = 0) ->
+  mget Rops (interdiffusivity Rops vp r X [false; false; false] M yva P) c e =
+    bigsum Rops 2 (fun k => Lvf X M r c k * Htot P r k e).
+Proof. exact (ternary_LH vp x0 x1 x2 m0 m1 m2 yva P r c e). Qed.
+Print Assumptions C10_ternary_LH.
+
+(* the Onsager matrix is symmetric positive definite for positive fractions and mobilities *)
+Theorem C10_onsager_spd x0 x1 x2 m0 m1 m2 r :
+  (r < 3)%nat -> x0 + x1 + x2 = 1 -> 0 < x0 -> 0 < x1 -> 0 < x2 -> 0 < m0 -> 0 < m1 -> 0 < m2 ->
+  let L := Lvf [x0; x1; x2] [m0; m1; m2] r in
+  0 < L 0%nat 0%nat /\ 0 < L 0%nat 0%nat * L 1%nat 1%nat - L 0%nat 1%nat * L 0%nat 1%nat.
+Proof. exact (Lvf_spd x0 x1 x2 m0 m1 m2 r). Qed.
+Print Assumptions C10_onsager_spd.
+
+(* real positive eigenvalues: l1, l2 are the roots of the characteristic polynomial of the 2x2
+   interdiffusivity (their sum is its trace, their product its determinant) *)
+Theorem C10_ternary_positive vp x0 x1 x2 m0 m1 m2 yva (P : list (list R)) r :
+  (r < 3)%nat -> x0 + x1 + x2 = 1 -> 0 < x0 -> 0 < x1 -> 0 < x2 -> 0 < m0 -> 0 < m1 -> 0 < m2 ->
+  let X := [x0; x1; x2] in let M := [m0; m1; m2] in
+  (forall B, (B < 3)%nat -> gd3 X P B = 0) ->
+  Htot P r 0 1 = Htot P r 1 0 -> 0 < Htot P r 0 0 ->
+  0 < Htot P r 0 0 * Htot P r 1 1 - Htot P r 0 1 * Htot P r 0 1 ->
+  let D := interdiffusivity Rops vp r X [false; false; false] M yva P in
+  exists l1 l2, 0 < l1 /\ 0 < l2 /\
+    l1 + l2 = mget Rops D 0 0 + mget Rops D 1 1 /\
+    l1 * l2 = mget Rops D 0 0 * mget Rops D 1 1 - mget Rops D 0 1 * mget Rops D 1 0.
+Proof. exact (ternary_positive vp x0 x1 x2 m0 m1 m2 yva P r). Qed.
+Print Assumptions C10_ternary_positive.
+
+(* end to end for one composition set: only the definiteness of dMudX remains a premise *)
+Theorem C10_ternary_positive_cs inv d lam vp x0 x1 x2 m0 m1 m2 yva r s :
+  nel d = 3%nat -> d2g_sym d -> stationary d lam -> inv_ok inv (hsize Rops d) (hessian Rops d) ->
+  s <> 0 -> vget Rops (moleA d) 0 = s * x0 -> vget Rops (moleA d) 1 = s * x1 -> vget Rops (moleA d) 2 = s * x2 ->
+  (r < 3)%nat -> x0 + x1 + x2 = 1 -> 0 < x0 -> 0 < x1 -> 0 < x2 -> 0 < m0 -> 0 < m1 -> 0 < m2 ->
+  let H := dMudX Rops inv d r in
+  0 < mget Rops H 0 0 -> 0 < mget Rops H 0 0 * mget Rops H 1 1 - mget Rops H 0 1 * mget Rops H 0 1 ->
+  let D := interdiffusivity_cs Rops inv vp r [x0; x1; x2] [false; false; false] [m0; m1; m2] yva d in
+  exists l1 l2, 0 < l1 /\ 0 < l2 /\
+    l1 + l2 = mget Rops D 0 0 + mget Rops D 1 1 /\
+    l1 * l2 = mget Rops D 0 0 * mget Rops D 1 1 - mget Rops D 0 1 * mget Rops D 1 0.
+Proof. exact (ternary_positive_cs inv d lam vp x0 x1 x2 m0 m1 m2 yva r s). Qed.
+Print Assumptions C10_ternary_positive_cs.
+
+(* ---- element re-ordering of Thermodynamics.getInterdiffusivity / getTracerDiffusivity ------------------- *)
+(* keys = the user's element names (order-preserving codes), pairwise different; rank keys i = number of
+   names smaller than the i-th = its position in the alphabetical order the backend uses *)
+Theorem C10_rank_is_alphabetical_position keys i : NoDup keys -> (i < length keys)%nat ->
+  nth (rank keys i) (map (fun j => nth j keys 0%nat) (argsort keys)) 0%nat = nth i keys 0%nat.
+Proof. exact (rank_spec keys i). Qed.
+Print Assumptions C10_rank_is_alphabetical_position.
+
+(* position i of the returned tracer diffusivities carries the alphabetical entry of the user's i-th element *)
+Theorem C10_reorder_tracer keys (v : list R) i : NoDup keys -> (i < length keys)%nat ->
+  nth i (reorder_vec Rops keys v) 0 = vget Rops v (rank keys i).
+Proof. exact (reorder_vec_entry Rops keys v i). Qed.
+Print Assumptions C10_reorder_tracer.
+
+(* entry (i,j) of the returned interdiffusivity is the alphabetical entry of the user's elements i and j *)
+Theorem C10_reorder_interdiffusivity keys (D : list (list R)) i j :
+  NoDup keys -> (i < length keys)%nat -> (j < length keys)%nat ->
+  mget Rops (reorder_mat Rops keys D) i j = mget Rops D (rank keys i) (rank keys j).
+Proof. exact (reorder_mat_entry Rops keys D i j). Qed.
+Print Assumptions C10_reorder_interdiffusivity.
